@@ -211,7 +211,8 @@ Record item := mkItem {
   i_orig : option (list sval);     (* None: disable_conversion_to_plain() *)
   i_val : T }.
 
-Inductive det := DItems (l : list item) | DSubs (l : list det).
+(* DMixed: a programmatically changed detection holding both items and nested detections *)
+Inductive det := DItems (l : list item) | DSubs (l : list det) | DMixed.
 
 Definition vals_of (v : mval) : list pv := match v with MOne x => [x] | MMany l => l end.
 
@@ -327,6 +328,7 @@ Definition is_null_def (d : ddef) : bool := match d with DVal PNull => true | _ 
 (* SigmaDetection.to_plain *)
 Fixpoint det_plain (d : det) : outcome ddef :=
   match d with
+  | DMixed => SigmaErr E_Value
   | DSubs l =>
     obind ((fix go (l : list det) : outcome (list ddef) :=
               match l with
